@@ -253,10 +253,15 @@ def run(world, rep, tier, only=None):
     for nm, cs in sysc.items():
         rep.ob("C18.e", site(fp, "%s restored" % nm), bool(cs), "%s" % [T.call_names(c.ev["x"])[0] for c in cs])
     for c in sysc["mode"]:
-        rep.ob("C18.e", site(fp, "mode comes from the inode"), any("i_mode" in T.field_names(a) for a in c.ev["x"].get("a", [])), "i_mode")
+        rep.ob("C18.e", site(fp, "mode comes from the inode"), any(depends_on(fp, a, lambda y: y.get("k") == "m" and y.get("f") == "i_mode")
+                                                                  for a in c.ev["x"].get("a", [])), "i_mode (possibly through a local)")
     for c in sysc["owner"]:
-        txt = " ".join(T.pp(a) for a in c.ev["x"].get("a", []))
-        rep.ob("C18.e", site(fp, "owner comes from the inode"), "uid" in txt and "gid" in txt, txt[:60])
+        def from_inode(a, what):
+            return depends_on(fp, a, lambda y: (y.get("k") == "m" and what in y.get("f", "")) or
+                              (y.get("k") == "c" and what in (y.get("fn") or "")) or what in (y.get("m") or "") or what in (y.get("om") or ""))
+        args = c.ev["x"].get("a", [])
+        rep.ob("C18.e", site(fp, "owner comes from the inode"), any(from_inode(a, "uid") for a in args) and
+               any(from_inode(a, "gid") for a in args), " ".join(T.pp(a) for a in args)[:60])
     ri = df["rdump_inode"]
     arms = {"regular": "dump_file", "symlink": "rdump_symlink", "directory": "ext2fs_dir_iterate"}
     for kind, callee in arms.items():
